@@ -110,8 +110,14 @@ def run(rep):
             ep = hole_after_seq(pt, 'entry_point : Some (')
             rep.check(ep == ('f', ent, 'name'), 'C14.compute', 'pipeline-entry-point', where,
                       f'entry_point is Some({E.show(ep, maxdepth=5) if ep else None}); expected the entry point\'s exact name', ok_detail='entry_point: Some(entry.name)')
-            frag = 'let module = super :: create_shader_module ( device ) ; let layout = super :: create_pipeline_layout ( device ) ; device . create_compute_pipeline ( & wgpu :: ComputePipelineDescriptor {'
-            rep.check(frag in ptxt and 'layout : Some ( & layout ) , module : & module ,' in ptxt, 'C14.compute', 'pipeline-wiring', where,
+            import re as _re
+            from tokrules import find_struct_expr
+            mm = _re.search(r'let (\w+) = super :: create_shader_module \( (\w+) \) ;', ptxt)
+            lm = _re.search(r'let (\w+) = super :: create_pipeline_layout \( (\w+) \) ;', ptxt)
+            desc = find_struct_expr(ptxt, 'wgpu :: ComputePipelineDescriptor')
+            wiring = bool(mm and lm and desc and desc[1] and desc[1].get('layout') == ('Some', {'0': (lm.group(1), None)}) and desc[1].get('module') == (mm.group(1), None)
+                          and mm.group(2) == lm.group(2) and f'{mm.group(2)} . create_compute_pipeline ( & wgpu :: ComputePipelineDescriptor' in ptxt)
+            rep.check(wiring, 'C14.compute', 'pipeline-wiring', where,
                       'the constructor does not use the module\'s own create_shader_module / create_pipeline_layout', ok_detail='module and layout from this module')
         for wt in wts[:1]:
             wtxt = E.tmpl_text(wt)
@@ -175,13 +181,29 @@ def run(rep):
         nm = hole_after_seq(t, 'pub fn')
         okn = nm is not None and nm[0] == 'call' and nm[2][0][0] == 'fmt' and nm[2][0][1] == '{}_entry' and nm[2][0][2] == [('f', ent, 'name')]
         rep.check(okn, 'C14.vertex', 'vertex-fn-name', where, f'the helper is named {E.show(nm, maxdepth=5) if nm else None}', ok_detail='<entry name>_entry')
-    for anchor, label, frag in (('pub fn vertex_state <', 'vertex_state', "wgpu :: VertexState { module , entry_point : Some ( entry . entry_point ) , buffers : & entry . buffers , compilation_options : wgpu :: PipelineCompilationOptions { constants : & entry . constants , .. Default :: default ( ) } , }"),
-                                ('pub fn fragment_state <', 'fragment_state', "wgpu :: FragmentState { module , entry_point : Some ( entry . entry_point ) , targets : & entry . targets , compilation_options : wgpu :: PipelineCompilationOptions { constants : & entry . constants , .. Default :: default ( ) } , }")):
+    from tokrules import find_struct_expr
+    import re as _re
+    for anchor, label, head, listf in (('pub fn vertex_state <', 'vertex_state', 'wgpu :: VertexState', 'buffers'), ('pub fn fragment_state <', 'fragment_state', 'wgpu :: FragmentState', 'targets')):
         ts = []
         for q2, v in ogp.summaries.items():
             ts += [t for t in E.find_templates(v, lambda t: t[3] == q2 and anchor in E.tmpl_text(t))]
-        rep.check(bool(ts) and frag in E.tmpl_text(ts[0]), 'C14.state-forwarding', label, 'entry.rs',
-                  f'{label} does not forward module, Some(entry.entry_point), the buffers/targets and &entry.constants unchanged', ok_detail='field-wise forwarding')
+        ok = False
+        detail = 'template not found'
+        if ts:
+            txt = E.tmpl_text(ts[0])
+            sig = _re.search(_re.escape(anchor) + r"[^(]*\( (\w+) : [^,]+ , (\w+) :", txt)
+            got = find_struct_expr(txt[txt.index(anchor):], head)
+            if sig and got:
+                mod_p, ent_p = sig.group(1), sig.group(2)
+                f_ = got[1]
+                co = f_.get('compilation_options')
+                ok = set(f_) == {'module', 'entry_point', listf, 'compilation_options'} and f_['module'] == (mod_p, None) and \
+                    f_['entry_point'] == ('Some', {'0': (f'{ent_p}.entry_point', None)}) and f_[listf] == (f'{ent_p}.{listf}', None) and \
+                    co is not None and co[0] == 'wgpu::PipelineCompilationOptions' and co[1].get('constants') == (f'{ent_p}.constants', None) and \
+                    set(co[1]) == {'constants', '..'} and co[1]['..'] == ('Default::default', {})
+                detail = str(got)[:300]
+        rep.check(ok, 'C14.state-forwarding', label, 'entry.rs',
+                  f'{label} does not forward module, Some(entry.entry_point), &entry.{listf} and &entry.constants unchanged ({detail})', ok_detail='field-wise forwarding')
     from common import include
     include(rep, 'c07', ('C07.D.buffer-count', 'C07.D.argument-order', 'C07.D.struct-arguments'), 'vertex-buffer-count')
 
